@@ -425,11 +425,13 @@ def verify(m, snap, whole=False, notes=None, selected=None):
     nbrs = {i: [] for i in range(n0)}
     bonded = {i: 0.0 for i in range(n0)}
     unknown_order = set()
+    bt_of = {}
     for i, j, bt, _, fo in snap["bdesc"]:
         o = bond_order(bt, fo)
         for x, y in ((i, j), (j, i)):
             if x is None or y is None:
                 continue
+            bt_of[(x, y)] = bt
             nbrs[x].append(y)
             if o is None:
                 unknown_order.add(x)
@@ -514,6 +516,10 @@ def verify(m, snap, whole=False, notes=None, selected=None):
                 okdir = any(all(float((h - X) @ c) < -1e-9 for h in Hs) for c in cents)
                 if not okdir:
                     dcls = "3-neighbours;more-than-one-hydrogen" if (k == 3 and len(got) > 1) else cls
+                    if any((snap["desc"][j][3] == CC) != (bt_of.get((i, j)) == 98) for j in nbrs[i]):
+                        dcls = "neighbour-atom-type-and-bond-type-disagree"  # ligand bond to a Regular atom / ordinary bond to a CoordinationCenter
+                    if len(got) == 4 and k >= 1:
+                        dcls = "due-4;with-neighbours"  # four hydrogens on an atom that has (order-0 bonded) neighbours
                     out.append((f"place[{dcls}]:not-pointing-away", f"Z={z}: (H-X).(centroid-X) = {[round(float((h - X) @ cents[0]), 4) for h in H]} must be negative"))
         if len(got) > 1:
             dm = min(np.linalg.norm(H[p] - H[q]) for p in range(len(got)) for q in range(p + 1, len(got)))
@@ -726,6 +732,17 @@ def make_variant_repro(case, seed=0):
             L.append(f"m.atoms[0].attrib[{HINT!r}] = {e[1]}")
         elif e[0] == "hint-removed":
             L.append(f"m.atoms[0].attrib.pop({HINT!r}, None)")
+        elif e[0] in ("element-assigned", "element-assigned+added-hydrogens-deleted", "added-hydrogens-deleted"):
+            if e[0].startswith("element"):
+                L.append(f"m.atoms[0].element = {e[1]!r}")
+            if e[0].endswith("deleted"):
+                L.append(f"for a in list(m.atoms)[{1 + k + 2}:]:")
+                L.append("    if m.atoms[0] in set(m.connected_atoms(a)): m.del_atom(a)")
+        elif e[0] == "neighbour-added":
+            d = _ap_direction(c) * 1.5
+            L.append(f"x = Atom({e[1]!r}); m.add_atom(x, m.coords[0] + np.array({np.round(d, 6).tolist()})); m.connect(m.atoms[0], x)")
+        elif e[0] == "neighbour-removed":
+            L.append("m.del_atom(m.atoms[1])")
     L += [
         "n = m.n_atoms",
         "print('bonds before the call:', [(m.get_atom_index(b.a1), m.get_atom_index(b.a2), int(b.btype), b.f_order) for b in m.bonds])",
